@@ -555,7 +555,7 @@ func main() {
 			Name: "heap-long", HangLimit: 20 * time.Minute,
 			Explore: func(r *mc.Run) {
 				var cases []longCase
-				for _, n := range mc.Pick(r, []int{17, 33, 64, 65, 130, 300}, []int{17, 33, 64, 65, 130, 300, 513, 1025}) {
+				for _, n := range mc.Pick(r, []int{17, 33, 64, 65, 129, 257, 513}, []int{17, 33, 64, 65, 129, 257, 300, 513, 1025, 2049}) {
 					for _, p := range []string{"asc", "desc", "perm", "dups5", "equal"} {
 						for _, d := range []bool{false, true} {
 							cases = append(cases, longCase{n, p, d, false}, longCase{n, p, d, true})
